@@ -124,7 +124,7 @@ DecE(s, e) == [s EXCEPT !.cnt[e.o] = @ - 1]
 DestroyV(s, e) ==
   CASE e.o \in s.dead -> <<"C02", "value destroyed twice">>
     [] s.cnt[e.o] # 0 -> <<"HARNESS", "destroy at non-zero count">>
-    [] \E g \in DOMAIN s.greg : s.greg[g] = e.o -> <<"C01+C02+C10", "value destroyed while a guard still denotes it (released once too often)">>
+    [] \E g \in DOMAIN s.greg : s.greg[g] = e.o -> <<IF s.upanic THEN "C01+C02+C10+C18" ELSE "C01+C02+C10", "value destroyed while a guard still denotes it (released once too often)">>
     [] Referenced(s, e.o) -> <<"C01+C02", "value destroyed while a handle, cache or container still refers to it (released once too often)">>
     [] OTHER -> OK
 DestroyE(s, e) == [s EXCEPT !.dead = @ \cup {e.o}]
